@@ -1185,6 +1185,11 @@ func unmarshalCandidateExtensions(raw string) (extensions []CandidateExtension, 
 		}
 		i = next
 
+		// An empty name cannot be marshalled back: it would put two spaces in a row.
+		if key == "" {
+			return extensions, "", fmt.Errorf("%w: empty extension name in %s", errParseExtension, raw)
+		}
+
 		// while not spec-compliant, we allow for empty values, as seen in the wild
 		var value string
 		if i < len(raw) {
